@@ -204,7 +204,52 @@ func (w *world) classify(m *mp.Model, q query, impl string) (string, error) {
 			return "extends-self-loop", nil // a style extending a self-extending style loses that style's descriptors
 		}
 	}
+	if w.extendsTargetVisited(q.styleName()) {
+		return "extends-target-already-visited", nil
+	}
 	return "other", nil
+}
+
+// extendsTargetVisited follows the fallback chain from name the way the code does, with ONE set of
+// visited names shared by fallback tracking and extends resolution, and reports whether some style of the
+// chain extends (transitively) a style whose own extends target is already in that set although the
+// extends chain itself has no cycle through it: the code then replaces that target by decimal.
+func (w *world) extendsTargetVisited(name string) bool {
+	visited := map[string]bool{}
+	for steps := 0; steps < 2*len(w.cs)+2; steps++ {
+		d, ok := w.cs[name]
+		if !ok || visited[name] {
+			return false
+		}
+		first := steps == 0 // RenderValue resolves the first style with a set of its own, which is then dropped
+		if !first {
+			visited[name] = true
+		}
+		fb := d.Fallback
+		cur := d
+		for i := 0; cur.System.Extends != "" && i <= len(w.cs); i++ {
+			t := cur.System.System
+			nxt, ok := w.cs[t]
+			if !ok {
+				break
+			}
+			if !first {
+				visited[t] = true
+				if nxt.System.Extends != "" && visited[nxt.System.System] {
+					return true
+				}
+			}
+			if fb == "" {
+				fb = nxt.Fallback
+			}
+			cur = nxt
+		}
+		if fb == "" {
+			fb = "decimal"
+		}
+		name = fb
+	}
+	return false
 }
 
 // batch runs the queries on the real code and on the model, and records every difference.
@@ -381,12 +426,12 @@ func runAuthor(m *mp.Model, r *rng.R, n int, out *res.Result) error {
 		}
 		w := &world{cs: cs, css: css, styles: stylesX(cs, authorNames(cs))}
 		// descriptor judge: the parsed rule against its text (last rule of a name wins)
-		last := map[string]int{}
-		for j, g := range gs {
-			last[g.name] = j
+		occurrences := map[string]int{}
+		for _, g := range gs {
+			occurrences[g.name]++
 		}
-		for j, g := range gs {
-			if last[g.name] != j || !g.validPerStandard() {
+		for _, g := range gs {
+			if occurrences[g.name] != 1 || !g.validPerStandard() { // a name defined twice: which rule survives depends on both
 				continue
 			}
 			d, ok := cs[g.name]
